@@ -11,7 +11,9 @@ type Profile struct {
 	NullProb    float64 // probability that a pointer / optional field is nil / zero
 	MaxLen      int     // max slice length
 	SmallDomain bool    // few distinct values (dictionary hits, RLE runs)
-	RunLen      int     // if > 0, null/non-null decisions are made in runs of about this length
+	LongLists   bool    // one scalar slice per row gets 513-2100 elements (more than any internal chunk size)
+	longUsed    bool
+	RunLen      int // if > 0, null/non-null decisions are made in runs of about this length
 	runLeft     map[string]int
 	runNull     map[string]bool
 }
@@ -85,7 +87,12 @@ func Fill(r *rand.Rand, v reflect.Value, p *Profile, path string, isOptional boo
 		}
 		k := r.Intn(5)
 		var n int
+		ek := v.Type().Elem().Kind()
 		switch {
+		case p.LongLists && !p.longUsed && ek != reflect.Struct && ek != reflect.Slice && ek != reflect.Ptr && ek != reflect.Map && r.Intn(3) > 0:
+			// one scalar list per row only: nesting long lists multiplies out
+			n = []int{513, 600, 1100, 2100}[r.Intn(4)]
+			p.longUsed = true
 		case k == 0:
 			v.Set(reflect.Zero(v.Type())) // nil
 			return
@@ -99,6 +106,21 @@ func Fill(r *rand.Rand, v reflect.Value, p *Profile, path string, isOptional boo
 			Fill(r, s.Index(i), p, path+"[]", false)
 		}
 		v.Set(s)
+	case reflect.Map:
+		k := r.Intn(5)
+		if k == 0 {
+			v.Set(reflect.Zero(v.Type()))
+			return
+		}
+		m := reflect.MakeMap(v.Type())
+		for i := 0; i < k-1; i++ {
+			key := reflect.New(v.Type().Key()).Elem()
+			key.SetString([]string{"a", "b", "k1", "k2", "zz", ""}[r.Intn(6)])
+			val := reflect.New(v.Type().Elem()).Elem()
+			Fill(r, val, p, path+"{}", false)
+			m.SetMapIndex(key, val)
+		}
+		v.Set(m)
 	case reflect.Array:
 		if isOptional && p.null(r, path) {
 			v.Set(reflect.Zero(v.Type()))
@@ -219,6 +241,14 @@ func Fill(r *rand.Rand, v reflect.Value, p *Profile, path string, isOptional boo
 	}
 }
 
+var longPrefix = func() string {
+	b := make([]byte, 300)
+	for i := range b {
+		b[i] = "https://example.org/a/rather/long/path/"[i%39] + byte(i/39)
+	}
+	return string(b)
+}()
+
 var emptyTailOf = []string{"abc", "prefix-shared-0001", "x"}
 
 func randString(r *rand.Rand, p *Profile) string {
@@ -227,6 +257,11 @@ func randString(r *rand.Rand, p *Profile) string {
 		return []string{"x", "y", "zz", "x"}[r.Intn(4)]
 	case r.Intn(2) == 0:
 		return strPool[r.Intn(len(strPool))]
+	case r.Intn(6) == 0:
+		// families sharing a prefix longer than 32/64/128 bytes with a short suffix (URLs, paths):
+		// front-coding kernels copy such prefixes in vector-sized steps
+		pl := []int{33, 63, 64, 65, 70, 100, 129, 300}[r.Intn(8)]
+		return longPrefix[:pl] + []string{"", "a", "b7", "idx", "/leaf"}[r.Intn(5)]
 	default:
 		n := r.Intn(24)
 		if r.Intn(20) == 0 {
@@ -268,6 +303,7 @@ func splitTag(tag string) []string {
 // FillRows fills a []T (reflect slice) with random rows.
 func FillRows(r *rand.Rand, rows reflect.Value, p *Profile) {
 	for i := 0; i < rows.Len(); i++ {
+		p.longUsed = false
 		Fill(r, rows.Index(i), p, "", false)
 	}
 }
